@@ -253,6 +253,7 @@ func verifAdvanceTime()                    { time.Sleep(1200 * time.Millisecond)
 func verifSymbolicClock()                  {}
 func verifHelperExit(int)                  { verifNotNative("verifHelper") }
 func verifHelperOutput([]byte)             { verifNotNative("verifHelper") }
+func verifHelperCloseOutput()              { verifNotNative("verifHelper") }
 func verifHelperState() int                { verifNotNative("verifHelper"); return 0 }
 func verifAbstractName(int) string         { verifNotNative("verifAbstractName"); return "" }
 func verifOpaqueASCII(int, int) string     { verifNotNative("verifOpaqueASCII"); return "" }
